@@ -88,6 +88,7 @@ func TestVerifC14(t *testing.T) {
 		Name:          "otlptracegrpc",
 		Alphabet:      grpcx.Alphabet(),
 		SetWait:       retry.VerifC14SetWait,
+		Clock:         verifc14.ClockSeam{Advance: retry.VerifC14Advance, Reset: retry.VerifC14ResetClock, Reads: retry.VerifC14ClockReads},
 		Reports:       grpcx.Reports,
 		DecodePayload: c14Decode,
 		// client.Stop(ctx) waits for in-flight UploadTraces calls (tscMu); when ctx expires it
